@@ -203,6 +203,11 @@ func setup() (*world, error) {
 	os.WriteFile(filepath.Join(wd.root, "d1", "index.html"), []byte("<html>INDEX-d1</html>"), 0o644)
 	os.WriteFile(filepath.Join(wd.root, "d2", "x.txt"), []byte("x-in-d2"), 0o644)
 	os.WriteFile(filepath.Join(wd.root, "d2", "y.txt"), []byte("y-in-d2"), 0o644)
+	// a directory whose generated listing is larger than the 8 KiB small-file threshold
+	os.MkdirAll(filepath.Join(wd.root, "d3"), 0o755)
+	for i := 0; i < 200; i++ {
+		os.WriteFile(filepath.Join(wd.root, "d3", fmt.Sprintf("entry-%03d.txt", i)), []byte("e"), 0o644)
+	}
 	os.WriteFile(filepath.Join(wd.root, "t.txt"), bytes.Repeat([]byte("compress me "), 500), 0o644)
 	opt := func() *config.Options { return rig.Options(nil) }
 	mk := func(name string, fs *app.FS, ranges bool) {
@@ -261,8 +266,17 @@ func judge(w *mon.W, en *engine, q reqSpec, m *wire.Message, wd *world) string {
 		}
 		if q.method == "GET" {
 			b := string(m.Body)
-			if !strings.Contains(b, "x.txt") || !strings.Contains(b, "y.txt") {
-				return fmt.Sprintf("listing lacks the directory's entries: %q", trunc(b, 200))
+			names := []string{"x.txt", "y.txt"}
+			if strings.HasPrefix(q.file, "d3") {
+				names = []string{"entry-000.txt", "entry-100.txt", "entry-199.txt"}
+			}
+			for _, nm := range names {
+				if !strings.Contains(b, nm) {
+					return fmt.Sprintf("listing lacks the directory entry %s: %q", nm, trunc(b, 200))
+				}
+			}
+			if cl, ok := m.Get("Content-Length"); ok && cl != strconv.Itoa(len(m.Body)) {
+				return fmt.Sprintf("listing Content-Length %s, body %d bytes", cl, len(m.Body))
 			}
 			if strings.Contains(b, "secret-outside") || strings.Contains(b, "CANARY") || strings.Contains(b, "f1.bin") {
 				return fmt.Sprintf("listing names entries outside the directory: %q", trunc(b, 300))
@@ -492,7 +506,8 @@ func work(w *mon.W) {
 			qs = []reqSpec{{method: r.Str("GET", "HEAD"), file: r.Str("nope.bin", "d1/nope", "f1.bin/x", "F1.BIN"), kind: "missing", L: -1}}
 		case 1:
 			en = wd.engines[3]
-			qs = []reqSpec{{method: "GET", file: "d1/", kind: "index", L: -1}, {method: "HEAD", file: "d1/", kind: "index", L: -1}, {method: "GET", file: "d2/", kind: "listing", L: -1}, {method: "GET", file: "f5.bin", L: 5, kind: "file", rng: "bytes=1-3"}}
+			qs = []reqSpec{{method: "GET", file: "d1/", kind: "index", L: -1}, {method: "HEAD", file: "d1/", kind: "index", L: -1}, {method: "GET", file: "d2/", kind: "listing", L: -1}, {method: "GET", file: "f5.bin", L: 5, kind: "file", rng: "bytes=1-3"},
+				{method: r.Str("GET", "HEAD"), file: "d3/", kind: "listing", L: -1}, {method: "GET", file: "d3/", kind: "listing", L: -1}}
 		default:
 			en = wd.engines[2]
 			q := reqSpec{method: "GET", file: "t.txt", L: 6000, kind: "file", gzip: true}
